@@ -317,6 +317,26 @@ def apply_pred(st, pred, truth):
     return True
 
 
+def _s32(x):
+    return x - (1 << 32) if x >> 31 else x
+
+
+def _b(v):
+    return 0xFFFFFFFF if v else 0
+
+
+EXACT2 = {
+    'and': lambda a, b: a & b, 'or': lambda a, b: a | b, 'xor': lambda a, b: a ^ b,
+    '<<': lambda a, b: (a << b) if b < 32 else None, 'u>>': lambda a, b: (a >> b) if b < 32 else None,
+    '>>': lambda a, b: (_s32(a) >> b) if b < 32 else None,
+    '=': lambda a, b: _b(a == b), '<>': lambda a, b: _b(a != b),
+    '<': lambda a, b: _b(_s32(a) < _s32(b)), '>': lambda a, b: _b(_s32(a) > _s32(b)),
+    '<=': lambda a, b: _b(_s32(a) <= _s32(b)), '>=': lambda a, b: _b(_s32(a) >= _s32(b)),
+    'u<': lambda a, b: _b(a < b), 'u>': lambda a, b: _b(a > b), 'u<=': lambda a, b: _b(a <= b), 'u>=': lambda a, b: _b(a >= b),
+}
+SIGNED_RESULT = {'=', '<>', '<', '>', '<=', '>=', 'u<', 'u>', 'u<=', 'u>=', '>>'}
+
+
 class Event:
     __slots__ = ('word', 'pc', 'name', 'args', 'st', 'ctx', 'extra')
 
@@ -325,13 +345,17 @@ class Event:
 
 
 class Interp:
-    def __init__(self, prog, pins=None, native_models=None, max_visits=80, field_ranges=None):
+    def __init__(self, prog, pins=None, native_models=None, max_visits=80, field_ranges=None, split_rets=False):
         self.p = prog
         self.eff = prog.native_effects()
         self.pins = pins or {}          # native name -> constant result(s) pushed
         self.models = native_models or {}
+        self.split_rets = split_rets      # keep the exit states of a word's different `ret`s apart (path-sensitive summaries)
         self.field_ranges = field_ranges or {}     # context offset -> (lo, hi) of the byte/half-word stored there (justified invariants)
         self.evmap = {}
+        self.branches = {}       # (word, pc of a conditional jump) -> feasible outcomes seen in any context
+        self.branches_magic = {}  # same, restricted to states that hold the pinned marker constant (self.magic)
+        self.magic = None
         self.banned = {}
         self.cur = [None]
         self.memo = {}
@@ -628,11 +652,16 @@ class Interp:
             self.memo[key] = summ
         else:
             self.stats['summary_hits'] += 1
-        ins, out = summ
-        if out is None:
+        ins, outl = summ
+        if not outl:
             return None
-        # ---- instantiate at the call site
+        return [self.instantiate(st, ctx, need, args, ins, out, n) for n, out in enumerate(outl)]
+
+    def instantiate(self, st, ctx, need, args, ins, out, nth):
+        # ---- instantiate one exit state of the summary at the call site
         tag = 'r%d.%d.' % (ctx[-1] if ctx else (0, 0))
+        if nth:
+            tag = tag + 'x%d.' % nth
         m = {}
         for s_, a in zip(ins, args):
             m[s_.t[0][0]] = a
@@ -691,7 +720,7 @@ class Interp:
                 preds_count[s_] += 1
         backtargets = set(i.arg for i in W.ins.values() if i.kind in ('jump', 'jumpif', 'jumpifnot') and i.arg <= i.pc)
         work = [(W.start, st0)]
-        out = None
+        outs = {}
         steps = 0
         while work:
             pc, s = work.pop()
@@ -727,7 +756,8 @@ class Interp:
                 i = W.ins[pc]
                 k = i.kind
                 if k == 'ret':
-                    out, _ = self.join(w, -1, out, s, False)
+                    rk = pc if self.split_rets else -1
+                    outs[rk], _ = self.join(w, -1 - (rk if rk > 0 else 0), outs.get(rk), s, False)
                     break
                 if k == 'const':
                     s.stack.append(C(i.arg))
@@ -744,6 +774,17 @@ class Interp:
                     taken = s.clone()
                     t_ok = apply_pred(taken, p, k == 'jumpif')
                     f_ok = apply_pred(s, p, k != 'jumpif')
+                    bo = self.branches.setdefault((w, pc), set())
+                    if t_ok:
+                        bo.add('taken')
+                    if f_ok:
+                        bo.add('fall')
+                    if self.magic is not None and any(x.isconst() and abs(x.c) == self.magic for x in s.stack + s.locs):
+                        bm = self.branches_magic.setdefault((w, pc), set())
+                        if t_ok:
+                            bm.add('taken')
+                        if f_ok:
+                            bm.add('fall')
                     if t_ok:
                         work.append((i.arg, taken))
                     if not f_ok:
@@ -753,17 +794,27 @@ class Interp:
                     if r == 'stop':
                         break
                 elif k == 'call':
-                    s2 = self.run_word(i.arg, s, ctx + ((w, pc),))
-                    if s2 is None:
+                    rs = self.run_word(i.arg, s, ctx + ((w, pc),))
+                    if not rs:
                         break
-                    s2.locs = s.locs
-                    s = s2
+                    for extra in rs[1:]:
+                        extra.locs = list(s.locs)
+                        if i.next in W.ins:
+                            work.append((i.next, extra))
+                    rs[0].locs = s.locs
+                    s = rs[0]
                 pc = i.next
                 if pc not in W.ins:
                     raise AnalysisBroken('%s W%d: falls off the end' % (self.p.key, w))
-        if out is not None:
-            out.locs = []
-        return out
+        res = [outs[k] for k in sorted(outs)]
+        if len(res) > 3:
+            j = None
+            for o in res:
+                j, _ = self.join(w, -1, j, o, False)
+            res = [j]
+        for o in res:
+            o.locs = []
+        return res or None
 
     # ------------------------------------------------------------ natives
     def native(self, st, w, pc, i, ctx):
@@ -794,6 +845,15 @@ class Interp:
             return None
         if name in self.models:
             return self.models[name](self, st, w, pc, i, ctx)
+        if name in EXACT2 and len(Sx) >= 2:
+            (la, ha), (lb, hb) = st.rng(Sx[-2]), st.rng(Sx[-1])
+            if la == ha and lb == hb and abs(la) < (1 << 33) and abs(lb) < (1 << 33):
+                r = EXACT2[name](int(la) & 0xFFFFFFFF, int(lb) & 0xFFFFFFFF)
+                if r is not None:
+                    pop(); pop()
+                    r &= 0xFFFFFFFF
+                    push(C(r - (1 << 32) if (r >> 31) and name in SIGNED_RESULT else r))
+                    return None
         if name in ('+', '-'):
             b = pop(); a = pop()
             r = a + b if name == '+' else a - b
